@@ -287,16 +287,29 @@ fn run_std<T, const N: usize>(r: &mut Report, ty: &'static str, ct: Ct, s: &Scri
 where
     T: DeserializeOwned + PartialEq + Debug + Send,
 {
-    let case = Case { ty, de: "StdRequestDeserializer", ct, limit: N, script: s, cost };
     let want = expect::<T>(ct, s, N);
-    let h = headers(ct);
-    if !s.contains(&Ev::Pending) {
-        let got = vcommon::catch(|| <StdRequestDeserializer<N> as DeserializeRequest<T, _>>::deserialize(rt, &h, ScriptIter::new(s)));
-        judge(r, &case, "blocking", &want, got);
+    // a Content-Length header is only a claim: truthful, understated, zero or junk, the body that
+    // actually arrives is what the limit applies to (varied on the small-limit sweep)
+    let actual = script::delivered(s).len().to_string();
+    let claims: Vec<(&'static str, Option<String>)> = if N <= 16 {
+        vec![("StdRequestDeserializer", None), ("StdRequestDeserializer+Content-Length:true", Some(actual)), ("StdRequestDeserializer+Content-Length:0", Some("0".into())), ("StdRequestDeserializer+Content-Length:3", Some("3".into())), ("StdRequestDeserializer+Content-Length:junk", Some("1x".into()))]
+    } else {
+        vec![("StdRequestDeserializer", None)]
+    };
+    for (de, claim) in claims {
+        let case = Case { ty, de, ct, limit: N, script: s, cost };
+        let mut h = headers(ct);
+        if let Some(c) = &claim {
+            h.insert(http::header::CONTENT_LENGTH, http::HeaderValue::from_str(c).unwrap());
+        }
+        if !s.contains(&Ev::Pending) {
+            let got = vcommon::catch(|| <StdRequestDeserializer<N> as DeserializeRequest<T, _>>::deserialize(rt, &h, ScriptIter::new(s)));
+            judge(r, &case, "blocking", &want, got);
+        }
+        let got = vcommon::catch(|| block_on(<StdRequestDeserializer<N> as AsyncDeserializeRequest<T, _>>::deserialize(rt, &h, ScriptStream::new(s))));
+        judge(r, &case, "async", &want, got);
+        let _ = case.cost;
     }
-    let got = vcommon::catch(|| block_on(<StdRequestDeserializer<N> as AsyncDeserializeRequest<T, _>>::deserialize(rt, &h, ScriptStream::new(s))));
-    judge(r, &case, "async", &want, got);
-    let _ = case.cost;
 }
 
 fn run_optional<T>(r: &mut Report, ty: &'static str, ct: Ct, s: &Script, rt: &ConjureRuntime)
